@@ -132,9 +132,9 @@ func frameL(thorough bool) *frame {
 	x, y, a := V("x"), V("y"), V("a")
 	fr := &frame{
 		name: "L", params: []Ty{TInt, TInt}, pnames: []string{"a", "b"}, results: []Ty{TInts},
-		head:    "\tx, y := a, 1\n\ts := []int{b, 2, a}\n\t_ = s\n",
-		tail:    "\treturn []int{x, y}\n",
-		env:     map[string]iv{"a": ivK(-2, 7), "b": ivK(-2, 7), "x": ivK(-2, 7), "y": ivK(1, 1)},
+		head: "\tx, y := a, 1\n\ts := []int{b, 2, a}\n\t_ = s\n",
+		tail: "\treturn []int{x, y}\n",
+		env:  map[string]iv{"a": ivK(-2, 7), "b": ivK(-2, 7), "x": ivK(-2, 7), "y": ivK(1, 1)},
 	}
 	as := func(kind, text string, effs ...eff) *atom { return &atom{kind: kind, text: text, effs: effs} }
 	// LDLOC y, 58 x (PUSH1, ADD), STLOC y: 118 bytes
